@@ -34,9 +34,14 @@ deriving DecidableEq, Inhabited
 /-- the opaque id reserved for Python `True` (site deployment defaults to it) -/
 def PV.tru : PV := .tok 1
 
-/-- `x /= n` as executed by the code (only ever reached for numbers) -/
-def PV.divNat : PV → Nat → PV
-  | .num q, n => .num (q / (n : Rat))
+/-- the opaque id reserved for the number `0` (the default of `val.get(path, 0)` for a method parameter
+that is missing from the method's parameter file) -/
+def PV.zeroTok : PV := .tok 2
+
+/-- `x /= n` as executed by the code (only ever reached for numbers); `n` is the number of equipment
+groups, a float when the equipment cell is one -/
+def PV.divBy : PV → Rat → PV
+  | .num q, n => .num (q / n)
   | v, _ => v
 
 /-- `if x is not None and x > 0: x = x / n` (`Equipment_Group._create_components`) -/
@@ -194,8 +199,15 @@ def Tables.sourceMeth (tb : Tables) : List String :=
 def globalPlain (tb : Tables) (G : Dict String) : Dict String :=
   tb.globalPlain.map (fun k => (k, G.get k))
 
+/-- `val = methods[method]; for path in access_path: val = val.get(path, 0)`: a parameter whose (last)
+path element is missing from the method's parameter file counts as `0` -/
+def gmVal (tb : Tables) (Gm : Dict MKey) (k : MKey) : PV :=
+  match Gm.lookup k with
+  | some v => v
+  | none => if tb.scaleMeth.contains k.2 then .num 0 else PV.zeroTok
+
 def globalMeth (tb : Tables) (methods : List String) (Gm : Dict MKey) : Dict MKey :=
-  (methKeys methods tb.globalMeth).map (fun k => (k, Gm.get k))
+  (methKeys methods tb.globalMeth).map (fun k => (k, gmVal tb Gm k))
     ++ methods.map (fun m => ((m, tb.siteDeploy), PV.tru))
 
 /-- `update_propagating_params`: site type (when a site type file is given), then site -/
@@ -214,8 +226,8 @@ def siteDicts (tb : Tables) (methods : List String) (G : Dict String) (Gm : Dict
 /-- `if prop_params[param] is not None: prop_params[param] /= equip_count` for every listed entry:
 each entry is divided once (the lists of the code are duplicate-free: table obligation
 `scale_lists_nodup`; the methods of the nested dictionary are unique by construction) -/
-def scaleKeys {κ : Type} [DecidableEq κ] (keys : List κ) (n : Nat) (d : Dict κ) : Dict κ :=
-  d.map (fun e => if keys.contains e.1 then (e.1, e.2.divNat n) else e)
+def scaleKeys {κ : Type} [DecidableEq κ] (keys : List κ) (n : Rat) (d : Dict κ) : Dict κ :=
+  d.map (fun e => if keys.contains e.1 then (e.1, e.2.divBy n) else e)
 
 /-- `Equipment_Group._update_prop_params`: method-specific entries first, then every key of the
 dictionary -/
@@ -259,6 +271,8 @@ def unprefixLoop (pre : String) (srcRow : Row) (d : Dict String) : Dict String :
 structure SourceEff where
   sid : String
   rep : Bool
+  /-- the source's own row gives a production rate -/
+  ownRate : Bool
   ers : PV
   epr : PV
   dur : PV
@@ -305,7 +319,8 @@ deriving Inhabited
 
 inductive EquipSpec where
   | named (raw : String)
-  | count (k : Nat)
+  /-- a number in the equipment cell (`≥ 0`; a float when the column holds one) -/
+  | count (q : Rat)
   | bad
 deriving Inhabited, DecidableEq
 
@@ -335,6 +350,9 @@ structure Files where
   typesHaveEquip : Bool
   sites : List SiteRow
   equipment : List EqRow
+  /-- pandas reads some component-count column of the equipment file as floats (a blank or
+  non-integer count): `range(0, count)` then raises for every group built from the file -/
+  countsFloat : Bool := false
   /-- `none`: no sources file -/
   sources : Option (List SrcRow)
 deriving Inhabited
@@ -345,7 +363,7 @@ def sourceEff (tb : Tables) (methods : List String) (sid : String) (rep : Bool) 
   let pre := if rep then tb.repPrefix else tb.nonRepPrefix
   let m' := updFrom MKey.col (methKeys methods tb.sourceMeth) srcRow m
   let d' := unprefixLoop pre srcRow d
-  { sid := sid, rep := rep,
+  { sid := sid, rep := rep, ownRate := (srcRow.get? tb.srcEpr).isSome,
     ers := d'.get tb.srcErs, epr := d'.get tb.srcEpr, dur := d'.get tb.srcDur,
     multi := d'.get tb.srcMulti,
     rd := if rep then d'.get tb.srcRd else .nul,
@@ -457,21 +475,21 @@ def findType (files : Files) (s : SiteRow) : Option TypeRow :=
 
 /-- equipment groups of a site: (id, equipment row, scaling divisor) -/
 def siteGroups (tb : Tables) (files : Files) (spec : EquipSpec) (d : Dict String) :
-    List (String × Row × Nat) :=
+    List (String × Row × Rat) :=
   match spec with
   | .named raw =>
     let names := splitEquip raw
     names.map (fun n =>
-      (n, ((files.equipment.find? (fun e => e.name = n)).map (·.cells)).getD [], names.length))
-  | .count k =>
+      (n, ((files.equipment.find? (fun e => e.name = n)).map (·.cells)).getD [], (names.length : Rat)))
+  | .count q =>
     let rep := d.get tb.siteRepEpr
     let non := d.get tb.siteNonRepEpr
     let kind := placeholderKind rep non
     let cnt := placeholderCount kind rep non
     let name := placeholderName tb kind
-    if k = 0 then [("0", [(name, .num (cnt : Rat))], 1)]
-    else (List.range k).map (fun i =>
-      (toString i, [(name, .num ((((cnt : Rat) / (k : Rat)).ceil.toNat : Nat) : Rat))], k))
+    if q = 0 then [("0", [(name, .num (cnt : Rat))], 1)]
+    else (List.range q.floor.toNat).map (fun i =>
+      (toString i, [(name, .num ((((cnt : Rat) / q).ceil.toNat : Nat) : Rat))], q))
   | .bad => []
 
 /-- `Site.__init__` -/
@@ -497,6 +515,12 @@ def buildWorld (tb : Tables) (methods : List String) (G : Dict String) (Gm : Dic
     (files : Files) (picks : List Nat) : List SiteEff :=
   picks.map (fun i => buildSite tb methods G Gm files (files.sites.getD i default))
 
+/-- `sites_in.sample(n)` raises when more rows are requested than the file has; `none` = all rows -/
+def sampleSize (nRows : Nat) (n : Option Nat) : Option Nat :=
+  match n with
+  | none => some nRows
+  | some k => if k ≤ nRows then some k else none
+
 /-- a valid sample: `n` distinct rows of the file -/
 def ValidPicks (nRows n : Nat) (picks : List Nat) : Prop :=
   picks.length = n ∧ picks.Nodup ∧ ∀ i ∈ picks, i < nRows
@@ -517,6 +541,7 @@ def siteRejects (tb : Tables) (methods : List String) (G : Dict String) (Gm : Di
       if placeholderKind (d.get tb.siteRepEpr) (d.get tb.siteNonRepEpr) = .error then ["no-production-rate"] else []
     | .named raw =>
       if (splitEquip raw).isEmpty then ["bad-equipment"]
+      else if files.countsFloat then ["non-integer-count"]
       else if (splitEquip raw).any (fun n => (files.equipment.find? (fun e => e.name = n)).isNone) then ["no-equipment-row"]
       else []
   let site := buildSite tb methods G Gm files s
